@@ -48,13 +48,18 @@ Inductive akind :=
 | AKPreLast                      (* Builder.PrecomputedLastValue *)
 | AKHist (nosum expo : bool).    (* Builder.ExplicitBucketHistogram / ExponentialBucketHistogram: count and sum only *)
 
+(** A view's attribute filter: an allow-list (attribute.NewAllowKeysFilter) or, with the flag set,
+    a deny-list (attribute.NewDenyKeysFilter) of keys. *)
+Definition afilter := (bool * list bytes)%type.
+Definition keeps (f : afilter) (x : kv) : bool := xorb (fst f) (bmem (fst x) (snd f)).
+
 (** Configuration of one aggregator: kind, reader temporality, cardinality
     limit (0 = unlimited) and the view's attribute filter (allow-list of keys). *)
 Record scfg := {
   s_kind : akind;
   s_delta : bool;
   s_limit : N;
-  s_filter : option (list bytes)
+  s_filter : option afilter
 }.
 
 (** Non-finite float64 measurements (+Inf, -Inf, NaN) have no value in Z: they are represented by
@@ -110,7 +115,7 @@ Record view := {
   vc_name : bytes; vc_desc : bytes; vc_kind : option ikind; vc_unit : bytes;
   vc_sname : bytes; vc_sver : bytes; vc_surl : bytes;
   vm_name : bytes; vm_desc : bytes; vm_unit : bytes;
-  vm_agg : aggsel; vm_filter : option (list bytes)
+  vm_agg : aggsel; vm_filter : option afilter
 }.
 
 Definition is_nil (b : bytes) : bool := match b with [] => true | _ => false end.
@@ -152,7 +157,7 @@ Definition matches (v : view) (i : inst) : bool :=
 
 (** The stream a matching view (or the implicit default view) asks for. *)
 Record sreq := {
-  r_name : bytes; r_desc : bytes; r_unit : bytes; r_agg : aggsel; r_filter : option (list bytes)
+  r_name : bytes; r_desc : bytes; r_unit : bytes; r_agg : aggsel; r_filter : option afilter
 }.
 
 Definition mask (v : view) (i : inst) : sreq :=
